@@ -249,7 +249,7 @@ class C20(Harness):
             out["reduction.window_length"] = attempt(lambda: r.fit(good), lambda: r.is_fitted)
             out["cutoff.window_length"] = attempt(lambda: list(sp.CutoffSplitter(np.array([1]), fh=1, window_length=v).split(good)))
         elif k == "int-param-types":
-            for name, bad in (("float", 2.0), ("str", "2"), ("list", [2])):
+            for name, bad in (("float", 2.0), ("str", "2"), ("list", [2]), ("bool", True), ("bool-false", False)):
                 out["window_length:" + name] = attempt(lambda bad=bad: list(sp.SlidingWindowSplitter(fh=1, window_length=bad).split(good)))
                 out["step_length:" + name] = attempt(lambda bad=bad: list(sp.SlidingWindowSplitter(fh=1, window_length=1, step_length=bad).split(good)))
                 f = NF("last", sp=bad)
